@@ -218,6 +218,20 @@ Theorem plain_payload : forall sn (gf: gfield), wf (gf_ty gf) ->
   exists fd, field_defs sn (exp_field gf) = Some fd /\ fd_aliases fd = nil /\
              fd_variants fd = (gf_name gf, lex (gf_ty gf)) :: nil /\ fd_ref_variants fd = (gf_name gf, amp_target ++ lex (gf_ty gf)) :: nil.
 Proof. exact ParseBodyProof.plain_payload. Qed.
+(* (h) end to end, from the tokens the user wrote: a well-formed struct declaration is parsed without panic, the StructDiff impl header of its
+   expansion is well-formed in the sense of (a), and the diff enums declare every parameter an unskipped field mentions *)
+Theorem struct_expansion_end_to_end : forall dedup_ty dedup_lt,
+  (forall l x, In x (dedup_ty l) <-> In x l) -> (forall l x, In x (dedup_lt l) <-> In x l) ->
+  forall fuel c gs d, wf_decl fuel d ->
+  exists st, parse_data dedup_ty dedup_lt fuel (lexd d) = Ok (DStruct st) nil /\
+    (exists h, nth_error (headers c gs (DStruct st)) 3 = Some h /\ good_impl_header h (TId "StructDiff" :: TId "for" :: nil) (d_name d) (d_generics d)) /\
+    (forall p f, In p (params_of (d_generics d)) -> In f (unskipped d) -> mentions p (gf_ty f) ->
+       In (param_arg p) (map ident_only (no_where (used_generics (s_generics st) (map f_ty (filter (fun f => negb (attrs_skip (f_attrs f))) (s_fields st))))))).
+Proof.
+  intros dt dl M1 M2 fuel c gs d W. exists (expected dt dl d). split; [apply ParseDeclProof.struct_parse_complete; exact W|]. split.
+  - destruct (ParseHeaderProof.struct_impl_headers_good dt dl M1 M2 fuel c gs d W) as [H _]. exact H.
+  - intros p f Hp Hf Hm. exact (ParseHeaderProof.mentioned_params_declared dt dl fuel d p f W Hp Hf Hm).
+Qed.
 (* non-vacuity: the example declaration above states four requirements (T: Clone, T: Default, Vec<T>: Clone, Vec<T>: 'a), and its impl header is
    the one rustc sees. The two known gaps of the struct templates as the model shows them: ParseHeaderProof.d21_where_item_not_on_the_enum (finding D21:
    a where-clause item a field type needs is not repeated on the diff enums) and d19_bound_mentions_undeclared (finding D19). *)
@@ -254,3 +268,4 @@ Print Assumptions diff_enum_uses_consistent.
 Print Assumptions diff_enum_variants_aligned.
 Print Assumptions variant_names_distinct.
 Print Assumptions plain_payload.
+Print Assumptions struct_expansion_end_to_end.
